@@ -160,8 +160,8 @@ func (s *State) doCall(call *ssa.Call, cc *ssa.CallCommon) ([]*State, bool) {
 		return nil, false
 	}
 	key := funcKey(fn)
-	if closure != nil {
-		key = funcKey(fn)
+	if key == "sort::Search" {
+		return s.sortSearch(call, args)
 	}
 	if sp, ok := c.SS.Funcs[key]; ok && (sp.HasBody || sp.Trusted) && !sp.Inline && !(fn == c.Fn && false) {
 		s.contractCall(call, sp, fn, fn.Signature, args, key, occ, false)
@@ -696,4 +696,75 @@ func (s *State) execCopy(call *ssa.Call, args []ssa.Value) {
 		q, An, q, d, q, q, d, n, srcElem(fmt.Sprintf("(- %s (s.off %s))", q, d)), A, q))
 	s.setComp(cn, cs, fmt.Sprintf("(ite (= %s 0) %s (store %s (s.base %s) %s))", n, E, E, d, An))
 	s.Frame.Vals[call] = n
+}
+
+// callValue starts the symbolic execution of a function value (closure or function) with the given arguments;
+// onRet runs when it returns (in the caller's frame).
+func (s *State) callValue(fv Value, args []Value, at ssa.Instruction, onRet func(s *State, vals []Value) ([]*State, bool)) {
+	c := s.C
+	var fn *ssa.Function
+	var cl *Closure
+	switch v := fv.(type) {
+	case *FuncRef:
+		fn = v.Fn
+	case *Closure:
+		fn, cl = v.Fn, v
+	case string:
+		if x, ok := closureReg[v]; ok {
+			fn, cl = x.Fn, x
+		}
+	}
+	if fn == nil || len(fn.Blocks) == 0 {
+		panic(abortPath{"call of an unknown function value"})
+	}
+	if li := c.loopInfo(fn); li != nil && len(li.loops) > 0 {
+		panic(abortPath{"function value " + fn.Name() + " has loops and cannot be inlined"})
+	}
+	nf := c.newFrame(fn, s.Frame)
+	nf.CallIns = at
+	nf.Closure = cl
+	nf.Params = args
+	nf.OnReturn = onRet
+	nf.Spec = c.SS.Funcs[funcKey(fn)]
+	for i, p := range fn.Params {
+		nf.Vals[p] = args[i]
+	}
+	s.Frame = nf
+}
+
+// sortSearch: sort.Search(n, f) returns some r in [0,n] with (r == n || f(r)) and (r == 0 || !f(r-1)).
+// This is the invariant of the library's binary search for *every* f; "smallest index" follows for the caller
+// from the monotonicity of f, which it has to derive from its own data invariants.
+func (s *State) sortSearch(call *ssa.Call, args []Value) ([]*State, bool) {
+	c := s.C
+	c.assume("A-LIB: sort.Search(n, f) returns r in [0,n] with (r == n or f(r)) and (r == 0 or not f(r-1))")
+	n := args[0].(string)
+	f := args[1]
+	s.safety("safe-make", call, fmt.Sprintf("(>= %s 0)", n))
+	r := s.freshConst("search", "Int")
+	s.assert(fmt.Sprintf("(and (<= 0 %s) (<= %s %s))", r, r, n))
+	s.Frame.Vals[call] = r
+	stage2 := func(s *State) ([]*State, bool) {
+		s2 := s.clone()
+		c.n++
+		s2.PathID = c.n
+		s2.assert(fmt.Sprintf("(= %s 0)", r))
+		s.assert(fmt.Sprintf("(> %s 0)", r))
+		s.callValue(f, []Value{fmt.Sprintf("(- %s 1)", r)}, call, func(s *State, vals []Value) ([]*State, bool) {
+			s.assert("(not " + vals[0].(string) + ")")
+			return nil, false
+		})
+		return []*State{s2, s}, true
+	}
+	s1 := s.clone()
+	c.n++
+	s1.PathID = c.n
+	s1.assert(fmt.Sprintf("(= %s %s)", r, n))
+	s.assert(fmt.Sprintf("(< %s %s)", r, n))
+	s.callValue(f, []Value{r}, call, func(s *State, vals []Value) ([]*State, bool) {
+		s.assert(vals[0].(string))
+		return stage2(s)
+	})
+	next, _ := stage2(s1)
+	return append(next, s), true
 }
